@@ -322,6 +322,11 @@ class TaxBenefitSystem:
             extension_parameters = ParameterNode(directory_path=param_dir)
             # Forget the memoised views first: a merge that stops half-way has already changed the tree.
             TaxBenefitSystem.get_parameters_at_instant.cache_clear()
+            if self.baseline is not None and self.parameters is self.baseline.parameters:
+                # A reform shares its baseline's tree until it changes it: the
+                # baseline is not to be mutated.
+                self.parameters = copy.deepcopy(self.parameters)
+                self._parameters_at_instant_cache = {}
             self.parameters.merge(extension_parameters)
 
     def apply_reform(self, reform_path: str) -> TaxBenefitSystem:
